@@ -148,6 +148,16 @@ var boundary = []input{
 	mk("regex", "boundary", []string{"a", "b"}, "/^(a|b)$/"),
 	mk("regex", "boundary", []string{"a", "b"}, "/[^a]/"),
 	mk("regex", "boundary", []string{"a", "b"}, "a,b"),
+	mk("regex", "boundary", []string{"br-eth0", "eth0", "eth1", "veth0", "wlan0"}, "/eth[0-9]/"),
+	mk("regex", "boundary", []string{"br-eth0", "eth0", "eth1", "veth0", "wlan0"}, "/0/"),
+	mk("regex", "boundary", []string{"br-eth0", "eth0", "eth10", "veth0", "wlan0"}, "/eth0$/"),
+	mk("regex", "boundary", []string{"br-eth0", "eth0", "eth10", "veth0", "wlan0"}, "/^eth0/"),
+	mk("regex", "boundary", []string{"br-eth0", "eth0", "eth10", "veth0", "wlan0"}, "/^eth0$/"),
+	mk("regex", "boundary", []string{"br-eth0", "eth0", "eth10", "veth0", "wlan0"}, "/eth1/"),
+	mk("regex", "boundary", []string{"br-eth0", "eth0", "eth10", "veth0", "wlan0"}, "/[0-9]$/"),
+	mk("regex", "boundary", []string{"br-eth0", "eth0", "eth10", "veth0", "wlan0"}, "/lan/"),
+	mk("regex", "boundary", []string{"br-eth0", "eth0", "eth10", "veth0", "wlan0"}, "/th|wl/"),
+	mk("run", "boundary", []string{"br-eth0", "eth0", "eth1", "veth0", "wlan0"}, "/eth[0-9]/"),
 	mk("run", "boundary", []string{"a", "b", "c"}, "a,c"),
 	mk("run", "boundary", []string{"a", "b", "c"}, "any,!b"),
 	mk("run", "boundary", []string{"a", "b", "c"}, "/[ab]/"),
@@ -159,6 +169,13 @@ var boundary = []input{
 var wildNames = []string{"a", "b", "c", "!a", "!b", "!c", "any", "ANY", "Any", "!any", "zz", "!zz", "eth0", "!eth0", "eth0", "a", "!a", "abcdefghijklmno", "!abcdefghijklmno", "abcdefghijklmnop"}
 var wildAll = []string{"a", "b", "c", "eth0", "any", "zz", "abcdefghijklmno"}
 var regexes = []string{"a", "^a$", "[ab]", "[^a]", "eth[0-2]", "a|c", ".*", "", "^$", "(", "[", "a{2}", "\\d", "^e", "b$", ".", "a/b", "x*", "(?i)A", "*"}
+
+// interface names that embed other names: an unanchored expression matches in the middle of a name
+var nestedAll = []string{"eth0", "eth1", "eth10", "veth0", "br-eth0", "wlan0", "lan", "t4", "0"}
+var nestedRegexes = []string{"eth[0-9]", "eth0", "eth1", "eth0$", "^eth0", "^eth0$", "^eth", "eth", "0", "1", "0$", "^0", "[0-9]", "[0-9]$",
+	"[0-9][0-9]", "lan", "lan0", "^lan", "lan$", "th", "th0", "h[01]", "e", "v?eth0", "(v|br-)eth0", "eth0|wlan0", "th|wl", "-", "br-", "t4",
+	"t", "t[0-9]", "[a-z]+0", "[a-z]+[0-9]$", "^[a-z]+[0-9]$", "eth.", "eth..", ".eth", "n", "n0$", "w.*0", "\\d$", "h1", "(?i)ETH"}
+
 var malformed = []string{"", ",", "a,", ",a", "a,,b", "!", "!!a", "a b", " a", "a ", "a\n", "a\tb", "a\xff", "\xc3\xa4", "a;b", "a/b", "abcdefghijklmnop",
 	"!abcdefghijklmnop", "a,!", "any,", "a,b,", "/", "//", "/a/", "!/a/", "a!", "a!b", "*", "a,*", "\x00"}
 
@@ -193,6 +210,11 @@ func genMixed(r *vhlib.Rand, o vhlib.Opts) input {
 	case p < wild+12:
 		all := shuffled(r, subset(r.Intn(1<<len(wildAll)), wildAll))
 		re := vhlib.Pick(r, regexes)
+		if r.Chance(65) {
+			// names embedding other names x expressions with a literal prefix / anchors / digits / classes
+			all = shuffled(r, subset(1+r.Intn(1<<len(nestedAll)-1), nestedAll))
+			re = vhlib.Pick(r, nestedRegexes)
+		}
 		arg := "/" + re + "/"
 		switch r.Intn(12) {
 		case 0:
